@@ -1,5 +1,5 @@
 import Got.Model.Ants
-import Got.Lemmas.AntsTime
+import Got.Lemmas.AntsHonour
 /-
 C08 — ants: at most `size` handlers run at once and timeouts bound the wait; busy only if the queue was full.
 Model: Got.Model.Ants. `State.running` is a ghost counter incremented when a handler is entered (wStart) and
@@ -52,14 +52,13 @@ Timing clause. `runMP c k` = executions under maximal progress (the clock moves 
 step and no cancellation-honouring handler is overdue: `quiescent`) in which, in addition, the clock never moves while
 the dispatcher of task k is blocked in `sendInnerCallback` (pc = sendCl).
 
-FULL-STRENGTH statement as planned in DESIGN (NOT proved in this generality):
-    if every handler in the execution honours cancellation (returns no later than the instant its ctx is done), then
-    for every task k:  doneAt k ≤ pickAt k + R k * T k.
-What is missing: the lemma "all handlers honour cancellation ⇒ no closure-send ever waits across a clock step", a
-pigeonhole argument over the N dispatchers and the N inner-worker slots (in a quiescent state every occupied slot runs a
-live attempt of a distinct dispatching task, so a dispatcher that wants to send finds a free slot). The theorem below
-assumes its conclusion for task k as the hypothesis built into `runMP`; everything else (timers, select, the decided
-flag, waiting for doneChan, the retry loop) is proved. Without any hypothesis the bound is false: C08_bound_full_false.
+`C08_bound_partial` carries that no-stall condition as a hypothesis and needs nothing about the handlers.
+`C08_bound_honour` (below) discharges it from the originally planned hypothesis: N ≥ 1 and every handler in the execution
+honours cancellation (returns no later than the instant its ctx is done; `runH`). The lemma in between
+(`Got.Model.Ants.no_stall`) is a pigeonhole over the N dispatchers and the N inner-worker slots: in a quiescent state
+every occupied slot runs the live current attempt of a distinct dispatching task, so a dispatcher blocked in the closure
+send would be an (N+1)-st dispatching task. Without any hypothesis on the handlers the bound is false:
+C08_bound_full_false (there task A's handler ignores ctx).
 -/
 /-- under maximal progress, if the closure-send of task k never waits across a clock step, then task k is done no
     later than R·T after a dispatcher picked it, whatever its own and all other handlers do (they may ignore ctx);
@@ -86,18 +85,27 @@ theorem C08_bound_partial (c : Cfg) (hc : c.old = false) (k : Nat) (acts : List 
       have := tk.loop this
       omega
 
+/-- the timing clause under the planned hypothesis: pool size N ≥ 1, maximal progress, and every handler honours
+    cancellation. Then EVERY task is done no later than R·T after a dispatcher picked it, and the clock never exceeds
+    that bound while the task is being dispatched. -/
+theorem C08_bound_honour (c : Cfg) (hc : c.old = false) (hN : 1 ≤ c.N) (acts : List Act) (s : State)
+    (h : runH c init acts = some s) (k : Nat) :
+    ((s.task k).pc = .done → (s.task k).doneAt ≤ (s.task k).pickAt + (s.task k).R * (s.task k).T) ∧
+    ((s.task k).pc.dispatching = true → s.now ≤ (s.task k).pickAt + (s.task k).R * (s.task k).T) :=
+  C08_bound_partial c hc k acts s (runH_runMP hc hN k (allInv_init c) h)
+
 /-- executions under maximal progress are executions of the model -/
 theorem C08_runMP_is_run (c : Cfg) (k : Nat) (acts : List Act) (s : State) (h : runMP c k init acts = some s) :
     Reachable c s := ⟨acts, runMP_run h⟩
 
-/-! non-vacuity of C08_bound_partial: a maximal-progress run in which task 0 times out once, then succeeds -/
+/-! non-vacuity of C08_bound_partial / C08_bound_honour: a maximal-progress run with honouring handlers in which task 0 times out once, then succeeds -/
 def c08DemoActs : List Act :=
   [.send 0 { timeout := 1000, retry := 2, discard := true, hasCb := true }, .busyTest 0, .enq 0, .take 0,
    .loopTest 0, .sendCl 0, .wTake 0 0 0, .wStart 0 0 true, .hook3 0,
    .advance 1000, .fire 0 0, .selCtx 0, .hook2 0, .decide 0, .writeDE 0, .cancel 0, .errTest 0,
    .wEnd 0 0 0 (.h 999), .wCheck 0 0, .wClose 0 0,
    .loopTest 0, .sendCl 0, .wTake 0 1 0, .wStart 0 1 true, .hook3 0, .advance 1500, .wEnd 0 1 8 .nil, .wCheck 0 1,
-   .hook1 0 1, .wCas 0 1, .wWrite 0 1, .wClose 0 1, .selDone 0, .decide 0, .waitDone 0, .cancel 0, .errTest 0, .wgDone 0]
+   .hook1 0 1, .wCas 0 1, .hook4 0 1, .wWrite 0 1, .wClose 0 1, .selDone 0, .decide 0, .waitDone 0, .cancel 0, .errTest 0, .wgDone 0]
 
 example : ∃ s, runMP { N := 1 } 0 init c08DemoActs = some s ∧ (s.task 0).pc = .done ∧ (s.task 0).doneAt = 1500 ∧
     (s.task 0).pickAt = 0 ∧ (s.task 0).R * (s.task 0).T = 2000 := by
@@ -106,6 +114,8 @@ example : ∃ s, runMP { N := 1 } 0 init c08DemoActs = some s ∧ (s.task 0).pc 
   cases hr : runMP { N := 1 } 0 init c08DemoActs with
   | none => simp [hr] at h
   | some x => simp
+
+example : (runH { N := 1 } init c08DemoActs).isSome = true := by decide
 
 def sec : Nat := 1000000000
 
